@@ -30,7 +30,7 @@ CHECKS = {
                           ("harness.config", "C18_RandomValues"), ("harness.config", "C18_UniformIEEE"),
                           ("harness.config", "C18_LegacyKeys"),
                           ("harness.config", "C18_ClassLookup")]},
-    "C19": {"harnesses": [("harness.functions", "C19_TickRounding")]},
+    "C19": {"harnesses": [("harness.functions", "C19_TickRounding"), ("harness.functions", "C19_TickRoundingInRun")]},
     "C20": {"harnesses": [("harness.agents", "C20_FCN"), ("harness.agents", "C20_MarketShareFCN"),
                           ("harness.agents", "C20_MarketMaker"), ("harness.agents", "C20_Arbitrage"),
                           ("harness.agents", "C20_TestAgentOrders")]},
@@ -94,7 +94,7 @@ META = {
                       "2-3 components, concrete unequal shares (thorough: symbolic shares for 2 components)."), "note": _N},
  "C18": {"level": _lv("real json_extends over every inheritance graph, real _setup over counts and ranges, real JsonRandom with symbolic draws (exact reals and IEEE binary64), real Session.setup, find_class.",
                       "3 entries x 3 keys (thorough 4 x 2), counts and ranges of length 1-4, nine (a,b) pairs."), "note": _N + "; one known finding (uniform upper end reached by rounding) is listed in known_findings.json"},
- "C19": {"level": _lv("the real _add_order on any positive real price for twelve tick sizes, both sides, and the same price on the opposite side.",
+ "C19": {"level": _lv("the real _add_order on any positive real price for twelve tick sizes, both sides, and the same price on the opposite side; submissions through the real runner to two markets with different ticks.",
                       "exact reals; ticks listed in the evidence."), "note": _N},
  "C20": {"level": _lv("the real submit_orders of the four built-in agents on symbolic market states.",
                       "windows <= 3, <= 3 markets / components, two polls per step."), "note": _N + "; log/exp/gauss are contract stubs (exp > 0, log defined on positives)"},
